@@ -184,8 +184,10 @@ def aggregate(summaries):
                 if o["status"] != "failed":
                     o["status"] = "failed"
                     o["witness"] = r
+                    o["task"] = s["task"]
                 elif score(r) < score(o["witness"]):
                     o["witness"] = r       # prefer witnesses free of model-only choices, then short ones (better native replays)
+                    o["task"] = s["task"]
             elif r["status"] == "unknown" and o["status"] == "discharged":
                 o["status"] = "unknown"
                 o["witness"] = r
